@@ -348,3 +348,35 @@ Fixpoint reqhdr_replay (peer_max : nat) (s : hsend) (obs : list (list nat * bool
       let (s', o) := hsend_step peer_max s blk in
       Bool.eqb (match o with Some _ => true | None => false end) sent && reqhdr_replay peer_max s' rest
   end.
+
+(* ---------------------------------------------------------------------------------------- *)
+(* 7. (round 7) GOAWAY on a multiplexed connection: ClientConn.setGoAway of                   *)
+(*    /repo/internal/http2/transport.go.  Every GOAWAY frame - the first and every later one  *)
+(*    (graceful shutdown: 2^31-1 first, the real last-stream-id afterwards) - aborts the open *)
+(*    streams above its last-stream-id with the retryable errClientConnGotGoAway; the others  *)
+(*    are left to the peer, which has promised to process them.                               *)
+
+(* stands for 2^31-1, the last-stream-id of the first frame of a graceful shutdown: above every
+   stream id that occurs (ids are unary naturals here; 2^31-1 itself would not fit in memory) *)
+Definition goaway_max : nat := 100000.
+
+(* open streams (by id) that stay on the connection, and those sent again elsewhere *)
+Definition goaway_step (st : list nat * list nat) (last : nat) : list nat * list nat :=
+  let '(kept, resent) := st in
+  (filter (fun id => id <=? last) kept, resent ++ filter (fun id => negb (id <=? last)) kept).
+
+Definition goaway_run (open : list nat) (lasts : list nat) : list nat * list nat :=
+  fold_left goaway_step lasts (open, []).
+
+(* the seeded variant: only the first GOAWAY looks at the streams *)
+Definition goaway_run_first_only (open : list nat) (lasts : list nat) : list nat * list nat :=
+  match lasts with
+  | [] => (open, [])
+  | l :: _ => goaway_step (open, []) l
+  end.
+
+(* harness case: stream ids outstanding on the connection, the last-stream-ids of the GOAWAY
+   frames the origin sent, how many callers were answered on that connection / elsewhere *)
+Definition goaway_case_ok (open lasts : list nat) (on_first elsewhere : nat) : bool :=
+  let '(kept, resent) := goaway_run open lasts in
+  Nat.eqb (length kept) on_first && Nat.eqb (length resent) elsewhere.
